@@ -2,7 +2,7 @@
    language reference prescribes), about the formal reference coq/Eval/{Values,Ops,Methods,Interp}.v
    on the parser model coq/Syntax/Parser.v, and nothing else. *)
 From MV Require Import Base.Strs Syntax.Lexer Syntax.Parser
-  Eval.Values Eval.Ops Eval.Methods Eval.Interp Eval.Laws Eval.Control Eval.Frame Eval.Shape.
+  Eval.Values Eval.Ops Eval.Methods Eval.Interp Eval.Laws Eval.Control Eval.Frame Eval.Shape Eval.Fuel.
 From Coq Require Import ZArith Sorting.Sorted Sorting.Permutation.
 
 (* ---- "documented precedence and associativity (comparisons do not chain, unary operators do
@@ -216,16 +216,39 @@ Print Assumptions C01_escape_table.
 (* ---- "Values are immutable: no operation on one name ever changes the value seen through
    another": a statement leaves every variable it does not assign unchanged, on every path *)
 Theorem C01_immutability_frame : forall x files fuel n st,
-  safe x n = true ->
+  safe is_dyn x n = true ->
   opost (fun st' => lookup x (vars st') = lookup x (vars st)) (eval files fuel n st).
 Proof. exact frame. Qed.
 Print Assumptions C01_immutability_frame.
 
 Theorem C01_immutability_frame_block : forall x files fuel b st,
-  safe_block x b = true ->
+  safe_block is_dyn x b = true ->
   opost (fun st' => lookup x (vars st') = lookup x (vars st)) (eval_block (eval files fuel) b st).
 Proof. exact frame_block. Qed.
 Print Assumptions C01_immutability_frame_block.
+
+(* ... also through subdir(), to any depth: if no build file of the project assigns x or calls
+   set_variable / unset_variable, no statement with the same property changes x *)
+Theorem C01_immutability_frame_project : forall x files fuel n st,
+  project_safe x files -> safe is_dyn2 x n = true ->
+  opost (fun st' => lookup x (vars st') = lookup x (vars st)) (eval files fuel n st).
+Proof. exact frame_project. Qed.
+Print Assumptions C01_immutability_frame_project.
+
+(* ... and set_variable / unset_variable write exactly the name they are given *)
+Theorem C01_set_variable_writes_its_name_only : forall x ev files name v kw st,
+  str_eqb x name = false ->
+  opost (fun st' => lookup x (vars st') = lookup x (vars st))
+        (call_function ev files (s2l "set_variable") [VStr name; v] kw st).
+Proof. exact set_variable_frame. Qed.
+Print Assumptions C01_set_variable_writes_its_name_only.
+
+Theorem C01_unset_variable_removes_its_name_only : forall x ev files name kw st,
+  str_eqb x name = false ->
+  opost (fun st' => lookup x (vars st') = lookup x (vars st))
+        (call_function ev files (s2l "unset_variable") [VStr name] kw st).
+Proof. exact unset_variable_frame. Qed.
+Print Assumptions C01_unset_variable_removes_its_name_only.
 
 (* ---- "foreach over arrays, dictionaries and range() with break/continue": the loop runs over
    the items of the value the iterable had at loop entry *)
@@ -305,6 +328,19 @@ Theorem C01_run_fuel_monotone : forall files f k r,
   run_root files f = r -> r <> OutOfFuel -> run_root files (f + k) = r.
 Proof. exact run_root_mono. Qed.
 Print Assumptions C01_run_fuel_monotone.
+
+(* fuel is only a bound on the nesting depth: for statements that enter no other build file
+   (no subdir() / subproject()) any fuel above the height of the tree is enough - loops cost none *)
+Theorem C01_fuel_suffices : forall files fuel n st,
+  (hgt n < fuel)%nat -> local n = true -> eval files fuel n st <> OutOfFuel.
+Proof. exact fuel_suffices. Qed.
+Print Assumptions C01_fuel_suffices.
+
+Theorem C01_run_fuel_suffices : forall files fuel code b n rest,
+  lookup (build_file []) files = Some code -> parse code = Ok b -> first_stmt b = Some (n, rest) ->
+  local_block rest = true -> (hgt_block rest < fuel)%nat -> run_root files fuel <> OutOfFuel.
+Proof. exact run_fuel_suffices. Qed.
+Print Assumptions C01_run_fuel_suffices.
 
 Theorem C01_deterministic : forall files f r1 r2, run_root files f = r1 -> run_root files f = r2 -> r1 = r2.
 Proof. exact run_deterministic. Qed.
